@@ -47,7 +47,7 @@ class CaseCtx:
             # further spellings, varied per shape: fixtures renamed with name=, async generator fixtures, CRLF line endings
             # ... and string-literal forms of usefixtures / pytestmark arguments (u"..", r'..', triple quotes)
             self.style = ["", "wrap", "alias", "async", "crlf", "wrap+alias", "async+crlf", "wrap+alias+async+crlf",
-                          "strform", "strform+wrap", "strform+crlf+alias", "strform+async"][hs % 12] or None
+                          "strform", "strform+wrap", "strform+crlf+alias", "strform+async", "assign", "assign+wrap+strform"][hs % 14] or None
         for slot, mod in case["ws"].items():
             self.files[slot] = R.render_checked(UNI, slot, mod, self.style)
 
